@@ -185,8 +185,10 @@ def finish(out: Outcome, level, checker_cmd, explanation=None, extra_cov=None):
           "assumptions": ASSUMPTIONS, "wall_s": round(time.time() - out.t0, 2), "violations": len(new_viol),
           "known_findings_reported": len(out.violations) - len(new_viol),
           "obligations_failing_as_known_findings": [o["name"] for o in kf_obs]}
-    os.makedirs(os.path.join(VERIF, "evidence"), exist_ok=True)
-    with open(os.path.join(VERIF, "evidence", f"{out.prop}.json"), "w") as f:
+    # evidence describes /repo; a run against a scratch copy (VERIF_REPO, used by the seed / harmless sweeps) keeps its file in its work dir
+    evdir = os.path.join(VERIF, "evidence") if os.path.realpath(xrun.REPO) == "/repo" else os.path.join(xrun.WORK, "evidence")
+    os.makedirs(evdir, exist_ok=True)
+    with open(os.path.join(evdir, f"{out.prop}.json"), "w") as f:
         json.dump(ev, f, indent=1)
     more = out.extra.get("further_failed_obligations") or []
     if more:
